@@ -72,3 +72,47 @@ Theorem new_no_resend :
   let '(s', r) := do_request false 2 [0; 0] [Some (0%nat, 1%nat); None] (HCat true [107] [43]) old_store 10 in
   r = HErr EInternal /\ option_map e_data (s' [107]) = Some [43; 79; 76; 68].
 Proof. vm_compute. split; reflexivity. Qed.
+
+(* ---- an unconditional set may be resubmitted: whatever the cuts, the backend ends up holding
+   what it held or what ONE set leaves (a set applied twice is a set applied once), and an
+   acknowledged set was applied ---- *)
+Lemma put_ext a b now k d f ttl : store_eq a b -> store_eq (b_put a now k d f ttl) (b_put b now k d f ttl).
+Proof. intros H x. unfold gb_put, upd. destruct (bytes_eqb x k); [reflexivity | apply H]. Qed.
+Lemma put_idem a now k d f ttl : store_eq (b_put (b_put a now k d f ttl) now k d f ttl) (b_put a now k d f ttl).
+Proof. intros x. unfold gb_put, upd. destruct (bytes_eqb x k); reflexivity. Qed.
+
+Lemma attempt1_set base k d f ttl s now cut :
+  attempt1 base (HSet MSet k d f ttl) s now cut =
+    match cut with
+    | None | Some (S _, _) => (b_put s now k d f ttl, [RRes (mkGR [] [] 0 0 0 false false)])
+    | Some (O, O) => (s, [RErr RETRY])
+    | Some (O, S _) => (b_put s now k d f ttl, [RErr RETRY])
+    end.
+Proof.
+  unfold attempt1, run_batch. cbn [batch_entries q_req q_chan].
+  destruct cut as [[[|n] [|a]]|]; cbn [run_entries apply_silently lookup_entry w_exec gb_set fst snd];
+    rewrite ?N.eqb_refl; cbn [hd_chan chans_of existsb rev app map of_chan flat_map fst snd Nat.eqb apply_silently w_exec gb_set deliver];
+    try reflexivity; destruct a; reflexivity.
+Qed.
+
+Theorem set_retry_exact rc : forall tries bases cuts k d f ttl s0 s now s' r,
+  store_eq s0 s \/ store_eq s0 (b_put s now k d f ttl) ->
+  do_request rc tries bases cuts (HSet MSet k d f ttl) s0 now = (s', r) ->
+  (store_eq s' s \/ store_eq s' (b_put s now k d f ttl)) /\
+  (r = HDone -> store_eq s' (b_put s now k d f ttl)).
+Proof.
+  induction tries as [|t IH]; intros bases cuts k d f ttl s0 s now s' r H0 H; cbn [do_request] in H.
+  - inversion H; subst. split; [exact H0 | discriminate].
+  - rewrite attempt1_set in H.
+    assert (P : store_eq (b_put s0 now k d f ttl) (b_put s now k d f ttl)).
+    { destruct H0 as [E|E].
+      - apply put_ext, E.
+      - intros x. rewrite (put_ext _ _ now k d f ttl E x). apply put_idem. }
+    destruct (hd None cuts) as [[[|n] [|a]]|]; cbn [is_cat andb single_result] in H;
+      rewrite ?N.eqb_refl in H;
+      try (inversion H; subst; split; [right; exact P | intros _; exact P]; fail).
+    + (* cut before the backend applied it: resubmitted on the same store *)
+      eapply IH; [exact H0 | exact H].
+    + (* cut after the backend applied it: resubmitted on the store holding the new value *)
+      eapply IH; [right; exact P | exact H].
+Qed.
